@@ -266,7 +266,7 @@ def wl_pol(ctx, idx, rng):
 
 def workloads(ctx):
     q = ctx.tier == "quick"
-    return [("pol", 640 if q else 25600, wl_pol)]
+    return [("pol", 1280 if q else 25600, wl_pol)]
 
 
 def setup(ctx):
